@@ -13,8 +13,15 @@ ObsFS(o) == FromSnapshot(Seq2Set(o.fs)) @@ (Root :> FS0[Root])
 JudgeOne(i) ==
   LET o == Obs[i]
       l1 == Run(FS0, <<>>, o.hist)
+      v0 == Verdict(o.hist, o.st, ObsFS(o), l1)
+      \* byte-offset reader faults / truncations (C12: success means the whole archive; C01: nothing outside changes)
+      vf == [v0 EXCEPT !.c12 = v0.c12 /\ o.fault_silent = 0,
+                       !.c01 = v0.c01 /\ o.fault_outside = 0,
+                       !.w01 = v0.w01 \cup (IF o.fault_outside = 0 THEN {} ELSE Seq2Set(o.fault_notes)),
+                       !.kf01 = IF o.fault_outside = 0 THEN v0.kf01 ELSE ""]
+               @@ [w12 |-> IF o.fault_silent = 0 /\ v0.c12 THEN {} ELSE Seq2Set(o.fault_notes) \cup (IF v0.c12 THEN {} ELSE {"policy rejection reported as a plain error"})]
   IN PrintT("@@" \o ToJson([fam |-> "judge", idx |-> i,
-                            v |-> Verdict(o.hist, o.st, ObsFS(o), l1),
+                            v |-> vf,
                             l1 |-> [st |-> l1.st, why |-> l1.why, v |-> Verdict(o.hist, l1.st, l1.fs, l1)]]))
 
 ASSUME \A i \in DOMAIN Obs : JudgeOne(i)
